@@ -4,7 +4,8 @@ import QipVerif.Model.Grid
 /-! Driver for the grid/resampling model (C14).  Rationals are `p/q` or `p`; `-` is the empty list.
 
 * `tlist tol=r grids=<g>!<g>…`                   → `ok t,t,…` | `none`
-* `fill tol=r oldt=<g> oldc=<g> full=<g>`         → `ok c,c,…` | `err index`
+* `fill tol=r [zl=1] oldt=<g> oldc=<g> full=<g>` (zl=1: repaired padding; likewise `coeffs`; `readshape … ndmin=2`)
+          → `ok c,c,…` | `err index`
 * `coeffs tol=r chans=<chan>!<chan>…`             → `ok <T>|<row>!<row>…` | `err <kind>`
      `<chan>` = `n` | `b:0` | `b:1` | `b:1:<g>` | `a:<g>:<g>`
 * `slices t=<g> rows=<g>!<g>…`                    → `ok dt:c,c,…;dt:c,c,…`
@@ -50,14 +51,14 @@ def step (line : String) : String :=
   | some "fill" =>
     match fRat? fs "tol", (fStr? fs "oldt").bind g?, (fStr? fs "oldc").bind g?, (fStr? fs "full").bind g? with
     | some tol, some ot, some oc, some full =>
-      match fill tol ot oc full with
+      match fillV (fNat? fs "zl" = some 1) tol ot oc full with
       | .error e => "err " ++ errName e
       | .ok r => "ok " ++ showRats r
     | _, _, _, _ => "bad-op"
   | some "coeffs" =>
     match fRat? fs "tol", (fStr? fs "chans").bind (fun s => (s.splitOn "!").mapM chanP?) with
     | some tol, some chans =>
-      match fullCoeffs tol chans with
+      match fullCoeffsV (fNat? fs "zl" = some 1) tol chans with
       | .error e => "err " ++ errName e
       | .ok (T, rows) => "ok " ++ showRats T ++ "|" ++ "!".intercalate (rows.map showRats)
     | _, _ => "bad-op"
@@ -87,7 +88,7 @@ def step (line : String) : String :=
   | some "readshape" =>
     match fNat? fs "inctime", fNat? fs "rows", fNat? fs "n" with
     | some it, some rows, some n =>
-      "ok " ++ ",".intercalate ((List.range n).map fun i => match readCoeffLen (it = 1) rows n i with
+      "ok " ++ ",".intercalate ((List.range n).map fun i => match readCoeffLenV (fNat? fs "ndmin" = some 2) (it = 1) rows n i with
         | some r => toString r | none => "x")
     | _, _, _ => "bad-op"
   | _ => "bad-op"
